@@ -31,6 +31,8 @@ def spl_contract_cases(seed, count, max_side, tag):
                     sp["A"] = [str(rng.randint(1, 50)) for _ in range(n)]
                 if rng.random() < 0.3:
                     sp["setters"] = 1
+                if "Ka" in sp and rng.random() < 0.4:
+                    sp["kform"] = rng.choice(["col", "expr", "flip_own"])
                 if rng.random() < 0.5:
                     # a history of slope-exponent requests on one separate eroder, with repeats
                     vals = [rng.choice(["1", "1.5", "2", "0.5"]) for _ in range(rng.randint(2, 4))]
@@ -159,9 +161,12 @@ def spl_exact_cases(seed, count, tag):
         steps = [dict(op="new", g=0, ops=[gen.op_single()]), dict(op="bl", g=0, bl=bl),
                  dict(op="update", g=0, z=dict(k="int", m=hp, e=0))]
         for tol in ("1e-3", "1e-6", "1e-1", "1e-2"):
-            steps.append(dict(op="spl", g=0, m=str(m), n={1: "0.5", 2: "1", 4: "2", 6: "3"}[ncode], tol=tol, dt="1",
-                              Ka=[str(x) for x in K], A=[str(x) for x in A], h=[str(x) for x in h],
-                              expect=hp, f=f, ncode=ncode, setters=1 if (tol == "1e-6" and rng.random() < 0.5) else 0))
+            sp = dict(op="spl", g=0, m=str(m), n={1: "0.5", 2: "1", 4: "2", 6: "3"}[ncode], tol=tol, dt="1",
+                      Ka=[str(x) for x in K], A=[str(x) for x in A], h=[str(x) for x in h],
+                      expect=hp, f=f, ncode=ncode, setters=1 if (tol == "1e-6" and rng.random() < 0.5) else 0)
+            if rng.random() < 0.4:
+                sp["kform"] = rng.choice(["col", "expr", "flip_own"])
+            steps.append(sp)
         # scalar erodibility when it happens to be uniform
         steps.append(dict(op="drop", g=0))
         yield flow_case("%s-%d-%d" % (tag, seed, made), g, steps)
